@@ -186,6 +186,9 @@ func (r *c04r[K]) keys(m omap.Map[K, int]) string {
 }
 
 func (r *c04r[K]) obs(res string, m omap.Map[K, int], id, k int) string {
+	if blindObs { // second, query-free execution (Stream.Blind)
+		return "r=" + res
+	}
 	var is []int
 	for i, it := range r.its {
 		if it.id == id {
@@ -1062,5 +1065,5 @@ func genC04(g *G) {
 }
 
 func init() {
-	register(&Stream{Name: "C04", Gen: genC04, New: func(st *Stats) Runner { return &c04{st: st} }})
+	register(&Stream{Name: "C04", Gen: genC04, Blind: true, New: func(st *Stats) Runner { return &c04{st: st} }})
 }
